@@ -25,6 +25,10 @@ SOURCES = {
     "fail-pass2": "nop\nldi r16, nowhere\n",
     "fail-limits": ".device ATtiny13\n.org 512\nnop\n",
     "fail-include": ".include \"missing.inc\"\nnop\n",
+    # parts without EEPROM / without SRAM: the sizes reported are zero
+    "no-eeprom": ".device ATtiny11\nnop\nrjmp 0\n",
+    "no-ram": ".device AT90S1200\nnop\n.eseg\n.db 1, 2\n",
+    "small-part": ".device ATtiny13\n.dseg\nv: .byte 5\n.cseg\nldi r16, 1\n.eseg\n.db 7\n",
     # 4 KiB of code: its HEX file (about 11 KB) does not fit a 2 KiB file size limit
     "code4k": "".join(".dw 0x%04x\n" % (i * 7 % 65536) for i in range(2048)) + ".eseg\n.db 1, 2, 3\n",
     # an image a little over 1 MiB: 16 full 64 KiB blocks and a partly filled 17th
@@ -62,7 +66,13 @@ def scenario(root, srcname, srcform, oloc, eloc, verbose, fname="prog.asm"):
     os.makedirs(proj)
     os.makedirs(os.path.join(root, "out"))
     missing = srcname == "missing-source"
-    if not missing:
+    if not missing and fname == "link.asm":
+        # the source is reached through a symbolic link: outputs go next to the name that was given
+        os.makedirs(os.path.join(root, "shared"))
+        with open(os.path.join(root, "shared", "blink_v2.asm"), "w") as f:
+            f.write(SOURCES[srcname])
+        os.symlink("../shared/blink_v2.asm", os.path.join(proj, fname))
+    elif not missing:
         with open(os.path.join(proj, fname), "w") as f:
             f.write(SOURCES[srcname])
     # bystanders that must not be touched: files whose names are near the expected output names
@@ -121,6 +131,28 @@ def scenario(root, srcname, srcform, oloc, eloc, verbose, fname="prog.asm"):
     return argv, cwd, opath, epath, ow, ew
 
 
+REPORT = {"flash": __import__("re").compile(r"Flash: (\d+)\((\d+)\) words\(bytes\) of (\d+)\((\d+)\)"),
+          "eeprom": __import__("re").compile(r"EEPROM: (\d+) bytes of (\d+)"), "ram": __import__("re").compile(r"RAM: (\d+) bytes of (\d+)")}
+
+
+def report_ok(text, lib):
+    """The memory figures of the -v report against the library's result for the same source."""
+    if lib["r"] != "ok":
+        return True
+    code, eep = len(lib["code"]) // 2, len(lib["eeprom"]) // 2          # hex strings
+    ok = True
+    m = REPORT["flash"].search(text)
+    if m:
+        ok = ok and [int(x) for x in m.groups()] == [code // 2, code, lib["fs"], lib["fs"] * 2]
+    m = REPORT["eeprom"].search(text)
+    if m:
+        ok = ok and [int(x) for x in m.groups()] == [eep, lib["es"]]
+    m = REPORT["ram"].search(text)
+    if m:
+        ok = ok and [int(x) for x in m.groups()] == [lib["rf"], lib["rs"]]
+    return ok
+
+
 def file_state(path, before, after):
     present = os.path.isfile(path) and not path.startswith("/dev/")
     changed = before.get(path) != after.get(path)
@@ -140,7 +172,7 @@ def check(prop, tier, seed):
         stdinc = os.path.join(home, ".config", "avra-rs", "includes")
         rnd = random.Random(seed)
         combos = []
-        srcs = [s_ for s_ in SOURCES if s_ not in SPECIAL] + ["missing-source"]
+        srcs = [s_ for s_ in SOURCES if s_ not in SPECIAL and s_ not in ("no-eeprom", "no-ram", "small-part")] + ["missing-source"]
         for srcname in srcs:
             for oloc in LOCS:
                 for eloc in LOCS:
@@ -163,6 +195,13 @@ def check(prop, tier, seed):
         combos.append(("huge", "abs", "default", "default", False, "prog.asm"))
         combos.append(("huge", "rel-here", "writable", "default", True, "big.asm"))
         combos.append(("huge2", "rel-dir", "existing", "default", False, "prog.asm"))
+        for srcname in ("no-eeprom", "no-ram", "small-part", "code+eeprom", "big"):
+            combos.append((srcname, "abs", "default", "default", True, "prog.asm"))
+            combos.append((srcname, "rel-here", "writable", "writable", True, "prog.asm"))
+        for srcname in ("code+eeprom", "code", "fail-pass2"):
+            for srcform in ("abs", "rel-dir", "rel-here"):
+                for oloc, eloc in (("default", "default"), ("writable", "default")):
+                    combos.append((srcname, srcform, oloc, eloc, False, "link.asm"))
         # the same file named for both images
         for srcname in ("code+eeprom", "code", "fail-pass2"):
             for srcform, oloc in (("abs", "writable"), ("rel-here", "default"), ("rel-dir", "existing")):
@@ -188,7 +227,8 @@ def check(prop, tier, seed):
                          "flash": fst, "eep": est,
                          "flash_writable": ow, "eep_writable": ew, "others_changed": others,
                          "exit": p.returncode, "printed": len(p.stdout) + len(p.stderr) > 0,
-                         "stdout": (p.stdout + p.stderr).decode("utf-8", "replace")[:300]})
+                         "stdout": (p.stdout + p.stderr).decode("utf-8", "replace")[:300],
+                         "fulltext": (p.stdout + p.stderr).decode("utf-8", "replace")[-2000:]})
             # what the library builds for the same source, same working directory, same include set
             libroot = scratch.sub("l%d" % i)
             files = {} if srcname == "missing-source" else {"proj/" + fname: SOURCES[srcname]}
@@ -201,6 +241,7 @@ def check(prop, tier, seed):
         for i, r in enumerate(runs):
             lr = lib[i]
             e = {k: r[k] for k in ("flash", "eep", "flash_writable", "eep_writable", "others_changed", "exit", "printed")}
+            e["report_ok"] = report_ok(r["fulltext"], lr)
             e["lib"] = {"ok": lr["r"] == "ok", "code": unhex(lr["code"]) if lr["r"] == "ok" else [],
                         "eeprom": unhex(lr["eeprom"]) if lr["r"] == "ok" else []}
             events.append(e)
@@ -210,6 +251,7 @@ def check(prop, tier, seed):
         if base:
             c = copy.deepcopy(base); c["flash"]["recs"][1]["data"][0] ^= 1; c["flash"]["recs"][1]["sum"] = (c["flash"]["recs"][1]["sum"] - 1) % 256; can.append(c)
             c = copy.deepcopy(base); c["others_changed"] = True; can.append(c)
+            c = copy.deepcopy(base); c["report_ok"] = False; can.append(c)
             c = copy.deepcopy(base); c["lib"]["code"] = c["lib"]["code"] + [0, 0]; can.append(c)
         rejected, stats = validate_events(events + can, "Trace_Cli", scratch)
         ncan = sum(1 for i in range(len(events), len(events) + len(can)) if i in rejected)
@@ -231,9 +273,9 @@ def check(prop, tier, seed):
             "states": stats["states"], "transitions": stats["transitions"], "traces_validated_against_impl": len(events),
             "evaluations": len(events), "distinct_nontrivial": len({(r["src"], tuple(r["argv"][2:])) for r in runs}),
             "rule": "%d sources (valid code / code+EEPROM / EEPROM only / empty / > 64 KiB / failing in parse, pass 2, limits, include / missing file) "
-                    "x source path form (absolute, with directory, bare) x source file names (plain, dotted stem, no extension, spaces, upper case) x flash output location x EEPROM output location, each of "
+                    "x source path form (absolute, with directory, bare) x source file names (plain, dotted stem, no extension, spaces, upper case, a symbolic link) x flash output location x EEPROM output location, each of "
                     "{default next to the source, -o/-e writable, existing file, missing parent directory, a directory, /dev/full} x -v; "
-                    "the flash file named for the EEPROM image as well; a 4 KiB program under a 2 KiB file size limit (the flash file is cut short); images of 1 MiB + 6 bytes and 1 MiB + 64 KiB - 28 bytes; "
+                    "the figures of the -v report against the library's for parts with and without EEPROM / SRAM; the flash file named for the EEPROM image as well; a 4 KiB program under a 2 KiB file size limit (the flash file is cut short); images of 1 MiB + 6 bytes and 1 MiB + 64 KiB - 28 bytes; "
                     "distinct = distinct (source, options)" % len(srcs),
             "lib_ok_runs": sum(1 for e in events if e["lib"]["ok"]), "lib_fail_runs": sum(1 for e in events if not e["lib"]["ok"]),
             "unwritable_output_runs": sum(1 for r in runs if not r["flash_writable"] or not r["eep_writable"]),
